@@ -68,7 +68,7 @@ case_st = st.fixed_dictionaries(dict(
     rs=st.integers(0, 2 ** 32),
     ndup=st.sampled_from([0, 0, 0, 1, 2, 7]),
     nrem=st.sampled_from([0, 0, 0, 0, 1, 2, 5]),
-    rem_mode=st.sampled_from(["random", "generator", "plane", "sublattice"]),
+    rem_mode=st.sampled_from(["random", "generator", "plane", "sublattice", "coprime"]),
     nforeign=st.sampled_from([0, 0, 0, 1, 3]),
 ))
 
@@ -123,6 +123,11 @@ def build(case):
         elif mode == "plane":
             ax = int(rng.integers(0, 3))
             keep[arr[:, ax] == int(rng.integers(0, dims[ax]))] = False
+        elif mode == "coprime":
+            # remove every point whose index along one axis is coprime to N: only coordinates with smaller
+            # denominators survive, their lcm may still be N although no single coordinate has denominator N
+            ax = int(np.argmax(dims)) if rng.integers(0, 2) else int(rng.integers(0, 3))
+            keep[np.array([math.gcd(int(i), dims[ax]) == 1 and dims[ax] > 1 for i in arr[:, ax]])] = False
         else:
             # keep only a sublattice along one axis (a complete coarser mesh when the step divides N)
             ax = int(rng.integers(0, 3))
